@@ -423,13 +423,13 @@ func (a *LTA) analyze(fn *ssa.Function, args map[int]labs, st LSt, deferredPanic
 			}
 		default:
 			if callee := d.Call.StaticCallee(); callee != nil && a.M[callee] {
-				cs := a.analyze(callee, a.absArgs(fr, &d.Call), st, false)
+				cs := a.analyze(callee, a.absArgs(fr, &d.Call), st, panicking)
 				absorb(cs)
 				for _, o := range sortedOuts(cs.outs) {
 					if o.panic {
 						runDefers(fr, o.st, true, o.origin.via(self), idx-1, k)
 					} else {
-						runDefers(fr, o.st, panicking, origin, idx-1, k)
+						runDefers(fr, o.st, panicking && !o.rec, origin, idx-1, k)
 					}
 				}
 				return
